@@ -115,6 +115,32 @@ func c17Render(ctx *core.Ctx, idx int) core.Result {
 	}
 	res.Add("render_checks", 1)
 	res.Tag("kind:" + x.K.String())
+	// a rendering stays what it is while other values are rendered: several results alive in one expression and
+	// across statements
+	y := c17Value(r)
+	in["y"] = val.Debug(y)
+	ses.M.SetGlobal("yin", calcrun.ToCalc(y))
+	wy := val.Render(y)
+	alive := []struct {
+		src  string
+		want val.Value
+	}{
+		{"[toa(xin), toa(yin), toa(xin)]", val.ArrV([]val.Value{val.StrV(want), val.StrV(wy), val.StrV(want)})},
+		{"toa(xin) + toa(yin)", val.StrV(want + wy)},
+		{"xkept = toa(xin)", val.StrV(want)},
+		{"ykept = toa(yin)", val.StrV(wy)},
+		{"[xkept, ykept]", val.ArrV([]val.Value{val.StrV(want), val.StrV(wy)})},
+	}
+	for _, a := range alive {
+		o, bad := run(a.src)
+		if bad != "" {
+			return fail(bad)
+		}
+		if o.Err != "" || !val.Same(o.Value, a.want) {
+			return fail(fmt.Sprintf("%s = %s (error %q), want %s", a.src, val.Debug(o.Value), o.Err, val.Debug(a.want)))
+		}
+		res.Add("render_checks", 1)
+	}
 	if x.K == val.Int || x.K == val.Float {
 		rt, bad := run("aton(toa(xin)) == xin")
 		if bad != "" {
@@ -132,6 +158,16 @@ func c17Render(ctx *core.Ctx, idx int) core.Result {
 			}
 			if back.Err != "" || !val.Same(back.Value, x) {
 				return fail(fmt.Sprintf("aton(toa(%s)) = %s", val.Debug(x), val.Debug(back.Value)))
+			}
+		}
+		// the rendering followed by a line break or a blank, or preceded by one, is not the text of a number
+		for _, src := range []string{"aton(toa(xin) + \"\\n\")", "aton(toa(xin) + \" \")", "aton(\" \" + toa(xin))"} {
+			o, bad := run(src)
+			if bad != "" {
+				return fail(bad)
+			}
+			if o.Err != "conversion" {
+				return fail(fmt.Sprintf("%s gave %s (error %q), want a conversion error", src, val.Debug(o.Value), o.Err))
 			}
 		}
 		res.Add("aton_roundtrips", 1)
@@ -483,7 +519,7 @@ func init() {
 	nMisuse := 7 * 4 * 9 * 9 * 9
 	register(&core.Property{
 		ID:          "C17",
-		Rule:        "(1) render: values injected as a global — random 64-bit ints and boundary ints, random finite float bit patterns, boundary floats (signed zero, subnormal, max, 1e20/1e21 threshold, 2^53, 2^63), scaled integers-as-floats, bools, strings with quotes/newlines/non-ASCII, functions, nested arrays of those — write(x) vs write(toa(x)) vs toa(x) vs the reference rendering, and aton(toa(n)) == n for every int and finite float; (2) gens: fromto(a,b) for a,b in -6..6, near 2^40 and with float bounds, elems/indices of arrays and strings of length 0..40, collected by a for loop and compared with a plain list and with the reference; (3) misuse: every built-in with 0..3 arguments drawn from 9 argument kinds (enumerated: " + fmt.Sprint(nMisuse) + " calls) must fail exactly when the contract says so, with a documented class; (4) read: inputs of 0..12 lines (some longer than 4 KiB) consumed by 0..n+2 read() calls in three syntactic positions must return successive lines and then a read error. (5) proc: the real binary runs write(read()) scripts with standard input from a pipe, a regular file, a FIFO fed in irregular chunks, and a regular file whose 1st..3rd read(2) fails with EIO injected by strace: whole successive lines, then the read error report, exit status 0, script continues. distinct by value / program text.",
+		Rule:        "(1) render: values injected as a global — random 64-bit ints and boundary ints, random finite float bit patterns, boundary floats (signed zero, subnormal, max, 1e20/1e21 threshold, 2^53, 2^63), scaled integers-as-floats, bools, strings with quotes/newlines/non-ASCII, functions, nested arrays of those — write(x) vs write(toa(x)) vs toa(x) vs the reference rendering, and aton(toa(n)) == n for every int and finite float, aton of the rendering plus a line break / blank = conversion error, renderings of two values kept alive side by side; (2) gens: fromto(a,b) for a,b in -6..6, near 2^40 and with float bounds, elems/indices of arrays and strings of length 0..40, collected by a for loop and compared with a plain list and with the reference; (3) misuse: every built-in with 0..3 arguments drawn from 9 argument kinds (enumerated: " + fmt.Sprint(nMisuse) + " calls) must fail exactly when the contract says so, with a documented class; (4) read: inputs of 0..12 lines (some longer than 4 KiB) consumed by 0..n+2 read() calls in three syntactic positions must return successive lines and then a read error. (5) proc: the real binary runs write(read()) scripts with standard input from a pipe, a regular file, a FIFO fed in irregular chunks, and a regular file whose 1st..3rd read(2) fails with EIO injected by strace: whole successive lines, then the read error report, exit status 0, script continues. distinct by value / program text.",
 		Assumptions: []string{"float rendering is Go's shortest round-trip %v; NaN and infinities are outside 'finite float'", "standard input always ends with a newline (an unterminated last line is not covered by the contract)"},
 		Families: []core.Family{
 			{Name: "render", Count: countFn(80000, 3000000), Run: c17Render},
